@@ -5,6 +5,7 @@ package main
 
 import (
 	"fmt"
+	"math"
 	"os"
 	"path/filepath"
 	"strconv"
@@ -12,7 +13,7 @@ import (
 )
 
 func (g *G) malformOReq(r oReq) (oReq, string) {
-	kinds := []string{"msize0", "msize-neg", "mi-neg", "mi-eq", "mj-big", "vsize0", "vi-neg", "vi-eq", "v-zero", "v-neg",
+	kinds := []string{"msize0", "msize-neg", "mi-neg", "mi-eq", "mj-big", "mi-maxint", "mj-maxint", "vi-maxint", "mi-2p40", "vsize0", "vi-neg", "vi-eq", "v-zero", "v-neg",
 		"alpha-neg", "alpha-big", "eps0", "eps-neg", "eps-big", "flat-neg", "leaders-neg", "max-neg", "min0", "min-neg",
 		"freq0", "freq-neg", "mscheme", "mobjstore", "vscheme", "storedmissing", "overflow", "dupcoords", "huge", "tinyvals", "valid"}
 	k := kinds[g.intn(len(kinds))]
@@ -38,6 +39,15 @@ func (g *G) malformOReq(r oReq) (oReq, string) {
 		r.lt.entries = append(r.lt.entries, mEntry{r.lt.size, 0, 1})
 	case "mj-big":
 		r.lt.entries = append(r.lt.entries, mEntry{0, r.lt.size + 5, 1})
+	case "mi-maxint":
+		r.lt.entries = append(r.lt.entries, mEntry{math.MaxInt64, 0, 1})
+	case "mj-maxint":
+		r.lt.entries = append(r.lt.entries, mEntry{0, math.MaxInt64, 1})
+	case "mi-2p40":
+		r.lt.entries = append(r.lt.entries, mEntry{1 << 40, 0, 1})
+	case "vi-maxint":
+		v := someVec()
+		v.entries = append(v.entries, vEntry{math.MaxInt64, 1})
 	case "vsize0":
 		v := someVec()
 		v.size = 0
